@@ -24,7 +24,7 @@ func staleResultCase(n, thr, reps int) harness.Case {
 		what := fmt.Sprintf("eddsa n=%d t=%d", n, thr)
 		c.Exec("[stale] " + what)
 		parties := ids(n)
-		shares, errs, _ := runAdapters("eddsa", parties, thr, nil, func(id uint16, a adapter, ctx context.Context) ([]byte, error) { return a.KeyGen(ctx) }, "keygen", 60*time.Second)
+		shares, errs, _ := runAdapters("eddsa", parties, thr, nil, func(id uint16, a adapter, ctx context.Context) ([]byte, error) { return a.KeyGen(ctx) }, "keygen", 900*time.Second)
 		for id, e := range errs {
 			if e != nil {
 				c.Violation("keygen", "c19-eddsa-keygen-fails", fmt.Sprintf("%s: party %d: %v", what, id, e), replay{"eddsa", n, thr, "keygen"})
